@@ -62,6 +62,7 @@ CODES = {
     125: 'a request of the scaffolding of a history failed although every server was up: DeleteCollection',
     126: 'a request of the scaffolding of a history failed although every server was up: GetShardsInfo',
     127: 'a request of the scaffolding of a history failed although every server was up: a shard read on the server that owns it',
+    128: 'a search answer already handed to its caller was modified by a later search on the same node (a reused buffer)',
     201: 'search: the number of rows, or the sort-key / hybrid class at some position, differs from the model cluster_search '
          '(per-shard limit and offset rewriting, merge, cut) applied to the shard contents',
     203: 'the per-shard limit computed by the Go expression differs from Model_C17.per_shard_limit (float32 rounding model)',
